@@ -32,11 +32,11 @@ static bool ref_dsa(const Grp &G, const Z &y, const Z &m, const Z &r, const Z &s
 static Z pick_message(Ctx &ctx, const Grp &G, std::string &cls) {
   switch (ctx.c.weighted({1, 1, 1, 1, 4})) { case 0: cls = "0"; return 0; case 1: cls = "1"; return 1; case 2: cls = "q-1"; return G.q - 1; case 3: cls = "q"; return G.q; default: cls = "random"; return zrand_bits(ctx, (unsigned)mpz_sizeinbase(G.q.get_mpz_t(), 2)); } // a hash value truncated to |q| bits (may exceed q)
 }
-struct FaultSet { std::vector<bool> present, libswitch, leaves; std::string desc; size_t count = 0; }; // leaves: takes part honestly in the key generation and is gone when it comes to signing
+struct FaultSet { std::vector<bool> present, libswitch, leaves, wrongkey; std::string desc; size_t count = 0; }; // wrongkey: honest in the key generation, then signs (unmodified library code) with a key share that no longer matches the public verification values // leaves: takes part honestly in the key generation and is gone when it comes to signing
 static FaultSet pick_faults(Ctx &ctx, size_t n, size_t maxf) {
-  FaultSet f; f.present.assign(n, true); f.libswitch.assign(n, false); f.leaves.assign(n, false); size_t k = maxf ? (size_t)ctx.c.range(1, maxf) : 0;
+  FaultSet f; f.present.assign(n, true); f.libswitch.assign(n, false); f.leaves.assign(n, false); f.wrongkey.assign(n, false); size_t k = maxf ? (size_t)ctx.c.range(1, maxf) : 0;
   std::vector<size_t> idx(n); for (size_t i = 0; i < n; i++) idx[i] = i;
-  for (size_t i = 0; i < k; i++) { size_t j = i + ctx.c.index(n - i); std::swap(idx[i], idx[j]); size_t who = idx[i]; switch (ctx.c.weighted({1, 2, 1})) { case 0: f.present[who] = false; f.desc += " P" + std::to_string(who) + ":silent"; break; case 1: f.libswitch[who] = true; f.desc += " P" + std::to_string(who) + ":library-switch"; break;
+  for (size_t i = 0; i < k; i++) { size_t j = i + ctx.c.index(n - i); std::swap(idx[i], idx[j]); size_t who = idx[i]; switch (ctx.c.weighted({1, 2, 1, 2})) { case 3: f.wrongkey[who] = true; f.desc += " P" + std::to_string(who) + ":signs-with-altered-key-share"; break; case 0: f.present[who] = false; f.desc += " P" + std::to_string(who) + ":silent"; break; case 1: f.libswitch[who] = true; f.desc += " P" + std::to_string(who) + ":library-switch"; break;
       default: f.leaves[who] = true; f.desc += " P" + std::to_string(who) + ":leaves-after-key-generation"; } f.count++; }
   return f;
 }
@@ -50,12 +50,13 @@ VF_SUB(threshold_schnorr_sign, 32, 1200) {
   bool simok = cl.run(ctx, [&](PartyEnv &e) {
     nts[e.i] = new GennaroJareckiKrawczykRabinNTS(n, t, e.i, G.p.get_mpz_t(), G.q.get_mpz_t(), G.g.get_mpz_t(), G.h.get_mpz_t(), G.F, G.G, true, false);
     e.rbc->setID("c16-nts-generate"); gret[e.i] = nts[e.i]->Generate(e.aiou, e.rbc, e.err, F.libswitch[e.i]); e.rbc->unsetID(); cl.barrier(e, 1); if (F.leaves[e.i]) return;
+    if (F.wrongkey[e.i]) mpz_add_ui(nts[e.i]->z_i, nts[e.i]->z_i, 1);
     e.rbc->setID("c16-nts-sign"); sret[e.i] = nts[e.i]->Sign(m.get_mpz_t(), C[e.i].get_mpz_t(), S[e.i].get_mpz_t(), e.aiou, e.rbc, e.err, F.libswitch[e.i]); e.rbc->unsetID();
     if (sret[e.i]) vret[e.i] = nts[e.i]->Verify(m.get_mpz_t(), C[e.i].get_mpz_t(), S[e.i].get_mpz_t()); });
   ctx.desc << d.str() << " vtime=" << vf::vnow; ctx.label("n=" + std::to_string(n)); ctx.label(F.count ? "with-faults" : "fault-free"); ctx.label("m=" + mcls);
   ctx.nontrivial(d.str() + std::to_string(cl.bc.sent));
   if (!simok) ctx.fail("tsig/schnorr/simulation-deadlock-or-time-budget", d.str() + cl.task_errors());
-  std::vector<size_t> H; for (size_t i = 0; i < n; i++) if (F.present[i] && !F.libswitch[i] && !F.leaves[i]) H.push_back(i);
+  std::vector<size_t> H; for (size_t i = 0; i < n; i++) if (F.present[i] && !F.libswitch[i] && !F.leaves[i] && !F.wrongkey[i]) H.push_back(i);
   bool first = true; Z c0, s0;
   for (size_t i : H) { if (ctx.failed) break;
     if (!gret[i]) { ctx.fail("tsig/schnorr/honest-party-fails-key-generation", "party " + std::to_string(i) + " " + d.str() + " log: " + cl.env[i]->err.str().substr(0, 600) + cl.task_errors()); break; }
@@ -77,13 +78,14 @@ VF_SUB(threshold_dss_sign, 12, 400) {
     dss[e.i] = new CanettiGennaroJareckiKrawczykRabinDSS(n, t, e.i, G.p.get_mpz_t(), G.q.get_mpz_t(), G.g.get_mpz_t(), G.h.get_mpz_t(), G.F, G.G, true, false);
     e.rbc->setID("c16-dss-generate"); gret[e.i] = dss[e.i]->Generate(e.aiou, e.rbc, e.err, F.libswitch[e.i]); e.rbc->unsetID(); cl.barrier(e, 1);
     if (F.leaves[e.i]) { cl.barrier(e, 2); if (do_refresh) cl.barrier(e, 3); return; } // keeps serving the broadcast layer inside the barriers, takes no part in the protocols
+    if (F.wrongkey[e.i]) mpz_add_ui(dss[e.i]->x_i, dss[e.i]->x_i, 1);
     e.rbc->setID("c16-dss-sign"); sret[e.i] = dss[e.i]->Sign(n, e.i, m.get_mpz_t(), R[e.i].get_mpz_t(), S[e.i].get_mpz_t(), e.aiou, e.rbc, e.err, F.libswitch[e.i]); e.rbc->unsetID(); cl.barrier(e, 2);
     if (do_refresh) { e.rbc->setID("c16-dss-refresh"); rret[e.i] = dss[e.i]->Refresh(n, e.i, e.aiou, e.rbc, e.err, F.libswitch[e.i]); e.rbc->unsetID(); cl.barrier(e, 3);
       e.rbc->setID("c16-dss-sign-after-refresh"); s2ret[e.i] = dss[e.i]->Sign(n, e.i, m.get_mpz_t(), R2[e.i].get_mpz_t(), S2[e.i].get_mpz_t(), e.aiou, e.rbc, e.err, F.libswitch[e.i]); e.rbc->unsetID(); } });
   ctx.desc << d.str() << " vtime=" << vf::vnow; ctx.label("n=" + std::to_string(n)); ctx.label(F.count ? "with-faults" : "fault-free"); ctx.label("m=" + mcls); if (do_refresh) ctx.label("refresh");
   ctx.nontrivial(d.str() + std::to_string(cl.bc.sent));
   if (!simok) ctx.fail("tsig/dss/simulation-deadlock-or-time-budget", d.str() + cl.task_errors());
-  std::vector<size_t> H; for (size_t i = 0; i < n; i++) if (F.present[i] && !F.libswitch[i] && !F.leaves[i]) H.push_back(i);
+  std::vector<size_t> H; for (size_t i = 0; i < n; i++) if (F.present[i] && !F.libswitch[i] && !F.leaves[i] && !F.wrongkey[i]) H.push_back(i);
   bool first = true; Z r0, s0;
   for (size_t i : H) { if (ctx.failed) break; Z y(dss[i]->y);
     // a party may be disqualified-after-share-phase in key generation (known finding of C15 in the underlying DKG): then the key itself is inconsistent
@@ -113,9 +115,10 @@ VF_SUB(threshold_dss_reduced_signer_set, 10, 400) {
   Grp G = pick_grp(ctx); const size_t n = 5, t = 1, n2 = n - 1; size_t dropped = ctx.c.index(n); std::string mcls; Z m = pick_message(ctx, G, mcls); bool do_refresh = ctx.c.prob(1, 3);
   std::vector<size_t> members; for (size_t i = 0; i < n; i++) if (i != dropped) members.push_back(i);
   size_t faulty = ctx.c.prob(1, 2) ? members[ctx.c.index(n2)] : n; // at most t = 1 member with the library's faulty switch in the signing phase
+  bool wrongkey = faulty < n && ctx.c.coin(); // ... or with an altered key share and otherwise unmodified code
   std::vector<bool> present(n, true); Cluster cl(n, t, present); detsim::Net uni2(n2), bc2(n2); size_t done2 = 0, done3 = 0;
   std::vector<CanettiGennaroJareckiKrawczykRabinDSS *> dss(n, nullptr); std::vector<bool> gret(n, false), sret(n, false), rret(n, true); std::vector<Z> R(n), S(n);
-  std::ostringstream d; d << "threshold_dss_reduced n=" << n << " t=" << t << " signers=all-but-P" << dropped << " m=" << mcls << (do_refresh ? " refresh-among-signers-first" : "") << " faults:" << (faulty < n ? " P" + std::to_string(faulty) + ":library-switch(signing)" : " none");
+  std::ostringstream d; d << "threshold_dss_reduced n=" << n << " t=" << t << " signers=all-but-P" << dropped << " m=" << mcls << (do_refresh ? " refresh-among-signers-first" : "") << " faults:" << (faulty < n ? " P" + std::to_string(faulty) + (wrongkey ? ":signs-with-altered-key-share" : ":library-switch(signing)") : " none");
   bool simok = cl.run(ctx, [&](PartyEnv &e) {
     dss[e.i] = new CanettiGennaroJareckiKrawczykRabinDSS(n, t, e.i, G.p.get_mpz_t(), G.q.get_mpz_t(), G.g.get_mpz_t(), G.h.get_mpz_t(), G.F, G.G, true, false);
     e.rbc->setID("c16-dssr-generate"); gret[e.i] = dss[e.i]->Generate(e.aiou, e.rbc, e.err, false); e.rbc->unsetID(); cl.barrier(e, 1);
@@ -124,8 +127,9 @@ VF_SUB(threshold_dss_reduced_signer_set, 10, 400) {
     detsim::SimNet a2u(n2, k, &uni2, cl.timeout), a2b(n2, k, &bc2, cl.timeout); CachinKursawePetzoldShoupRBC rbc2(n2, t, k, &a2b, aiounicast::aio_scheduler_roundrobin, cl.timeout);
     std::map<size_t, size_t> idx2dkg, dkg2idx; for (size_t z = 0; z < n2; z++) { idx2dkg[z] = members[z]; dkg2idx[members[z]] = z; }
     auto serve = [&](size_t &cnt) { cnt++; mpz_t tmp; mpz_init(tmp); size_t l; while (cnt < n2) rbc2.Deliver(tmp, l, aiounicast::aio_scheduler_roundrobin, 0); mpz_clear(tmp); };
+    if (wrongkey && e.i == faulty) mpz_add_ui(dss[e.i]->x_i, dss[e.i]->x_i, 1);
     if (do_refresh) { rbc2.setID("c16-dssr-refresh"); rret[e.i] = dss[e.i]->Refresh(n2, k, idx2dkg, dkg2idx, &a2u, &rbc2, e.err, false); rbc2.unsetID(); serve(done3); }
-    rbc2.setID("c16-dssr-sign"); sret[e.i] = dss[e.i]->Sign(n2, k, m.get_mpz_t(), R[e.i].get_mpz_t(), S[e.i].get_mpz_t(), idx2dkg, dkg2idx, &a2u, &rbc2, e.err, e.i == faulty); rbc2.unsetID(); serve(done2); });
+    rbc2.setID("c16-dssr-sign"); sret[e.i] = dss[e.i]->Sign(n2, k, m.get_mpz_t(), R[e.i].get_mpz_t(), S[e.i].get_mpz_t(), idx2dkg, dkg2idx, &a2u, &rbc2, e.err, e.i == faulty && !wrongkey); rbc2.unsetID(); serve(done2); });
   ctx.desc << d.str() << " vtime=" << vf::vnow; ctx.label("reduced-signer-set"); ctx.label(faulty < n ? "with-faults" : "fault-free"); ctx.label("m=" + mcls); if (do_refresh) ctx.label("refresh");
   ctx.nontrivial(d.str() + std::to_string(cl.bc.sent + bc2.sent));
   if (!simok) ctx.fail("tsig/dss-reduced/simulation-deadlock-or-time-budget", d.str() + cl.task_errors());
